@@ -1,7 +1,7 @@
 (* C17 — Displacement and immediate field codecs are exact for every value.
    This file holds ONLY the property theorems (each closed by `exact <lemma>`) and their Print Assumptions. *)
 From Coq Require Import ZArith List Bool.
-From Verif Require Import Base.ZBits Codec.OffsetModel Codec.OffsetProofs Codec.ImmModel Codec.ImmProofs.
+From Verif Require Import Base.ZBits Codec.OffsetModel Codec.OffsetProofs Codec.ImmModel Codec.ImmProofs Codec.MovSeqProofs.
 Local Open Scope Z_scope.
 
 (* contiguous signed field (x86 rel8/rel32, AArch64 imm19/imm26/imm14, ...): any value size 1/2/4/8, any bit count,
@@ -107,3 +107,13 @@ Theorem C17_lmh_exact : forall size idx, 0 <= idx ->
   end.
 Proof. exact lmh_exact. Qed.
 Print Assumptions C17_lmh_exact.
+
+(* move-wide sequences (mov xN, #imm64): for EVERY immediate, destination and initial register content, the 1..4 words
+   decode (ARM ARM move-wide class) to MOVZ/MOVN/MOVK operations on Rd whose execution leaves exactly the immediate *)
+Theorem C17_mov_sequence_correct : forall (is64 : bool) imm rd x init,
+  0 <= imm < (if is64 then 2 ^ 64 else 2 ^ 32) -> 0 <= rd < 32 -> (x = 0 \/ x = 1) -> 0 <= init < 2 ^ 64 ->
+  let ws := encode_mov_sequence is64 imm rd x in
+  exists ops, map mw_decode ws = map (fun m => Some (rd, m)) ops /\ mw_run init ops = Some imm /\
+              (1 <= length ws <= (if is64 then 4 else 2))%nat.
+Proof. exact mov_sequence_words_correct. Qed.
+Print Assumptions C17_mov_sequence_correct.
